@@ -18,7 +18,7 @@ import (
 // setting."  A whole real replica-set sync that creates the pod of node0 (labels pool=a) with up
 // to three ExtendedDaemonsetSettings in the store, each with an arbitrary status (valid / error /
 // unset), reference (foo / another ExtendedDaemonSet / none), namespace (ns / ns2) and selector
-// (pool=a / pool=b / everything): the container resources of the created pod are those of the
+// (pool=a / pool=b / everything / unusable, the latter never with status valid): the container resources of the created pod are those of the
 // first listed setting that is valid, references foo, lives in ns and selects node0 — and the
 // template's when there is none.
 func ZZ_C18_ersSide() {
@@ -63,11 +63,17 @@ func ZZ_C18_ersSide() {
 			s.Namespace = "ns2"
 			applies = false
 		}
-		switch nondet.String(l+".selector", "pool=a", "pool=b", "all") {
+		switch nondet.String(l+".selector", "pool=a", "pool=b", "all", "unusable") {
 		case "pool=a":
 			s.Spec.NodeSelector = metav1.LabelSelector{MatchLabels: map[string]string{"pool": "a"}}
 		case "pool=b":
 			s.Spec.NodeSelector = metav1.LabelSelector{MatchLabels: map[string]string{"pool": "b"}}
+			applies = false
+		case "unusable":
+			// "a setting ... with an unusable selector is in error" (never valid): it must not influence
+			// anything, not even by making the sync fail
+			s.Spec.NodeSelector = metav1.LabelSelector{MatchExpressions: []metav1.LabelSelectorRequirement{{Key: "pool", Operator: metav1.LabelSelectorOpIn}}}
+			nondet.Assume(s.Status.Status != datadoghqv1alpha1.ExtendedDaemonsetSettingStatusValid)
 			applies = false
 		}
 		c.Settings = append(c.Settings, s)
